@@ -327,6 +327,11 @@ func (c *Ctx) Finish(verifDir string, start time.Time, seed int, patterns []stri
 		fmt.Println("cannot write evidence:", err)
 		return 2
 	}
+	if os.Getenv("VCHK_DUMP") != "" {
+		for _, o := range c.Obs {
+			fmt.Printf("OBL %s %s %s %s\n", o.Rule, o.Status, o.Key, o.Pos)
+		}
+	}
 	// summary of what was analysed
 	rs := []string{}
 	for _, r := range c.Rules {
